@@ -641,6 +641,13 @@ func (e *Env) call(n *CCall) Val {
 	case "mention":
 		return boolV("true")
 	}
+	if fv, ok := e.vars[n.Fun]; ok && fv.Fn != nil && e.x != nil {
+		var args []Val
+		for _, a := range n.Args {
+			args = append(args, e.tr(a))
+		}
+		return e.x.applyPure(e, fv, args)
+	}
 	if sf, ok := e.w.specs[n.Fun]; ok {
 		if len(n.Args) != len(sf.Params) {
 			cfail("spec function %s: %d args, want %d", n.Fun, len(n.Args), len(sf.Params))
